@@ -92,6 +92,22 @@ def stub_number_formatting():
     _core0 = __import__("crosshair.core", fromlist=["x"])
     _core0.consider_shortcircuit = lambda *a, **kw: None
 
+    # CrossHair 0.0.110 bug: its dict model defines `__ror__ = __or__`, so `plain_dict | crosshair_dict` lets the LEFT operand win
+    # (dict union is not commutative).  func_adl relies on `{var: type} | known_types`; without this repair engine S would execute a
+    # different program than CPython does there (it did: a nested lambda re-using its parent's parameter name looked correct under
+    # tracing and wrong natively).
+    from collections.abc import Mapping as _Mapping
+    from crosshair import simplestructs as _ss
+
+    def _map_ror(self, other):
+        if not isinstance(other, _Mapping):
+            return NotImplemented
+        union_map = _ss.ShellMutableMap(_ss.SimpleDict(list(other.items())))
+        union_map.update(self)
+        return union_map
+
+    _ss.MapBase.__ror__ = _map_ror
+
     # builtin callable(): CrossHair realises a symbolic argument handed to an unmodelled C builtin; symbolic
     # int/bool/float/str/bytes/containers are never callable, so answer without realising.
     import crosshair.core_and_libs  # noqa: F401  (registers the stock patches we override below)
@@ -160,6 +176,73 @@ def run(module, fn_name, lo, hi, cond_timeout, path_timeout, mode):
     print("RESULT " + json.dumps(out))
 
 
+def sample(module, fn_name, lo, hi, n, seed):
+    """Native cross-check of the symbolic engine: the harness function is run on the plain interpreter (no CrossHair) on n pseudo-random
+    inputs of partition [lo, hi) built from its signature.  A model error of the symbolic executor (one was found: dict `|`) shows up
+    as an input that fails natively although the partition was 'confirmed'."""
+    import inspect
+    import random
+    import typing
+    os.environ["VERIF_LO"] = str(lo)
+    os.environ["VERIF_HI"] = str(hi)
+    os.environ["VERIF_TWIN"] = "0"
+    import logging
+    logging.disable(logging.CRITICAL)
+    m = importlib.import_module(module)
+    fn = getattr(m, fn_name)
+    rnd = random.Random(seed)
+    sig = inspect.signature(fn)
+    hints = typing.get_type_hints(fn)
+    names = list(sig.parameters)
+    STRS = ["", "a", "b", "k", "ab", "a b", "class", "x'", "\\", "\n", "Select", "Count", "len", "Sum", "\u03bb"]
+    # simple bounds from the contract's `pre:` lines:  a <= x <= b,  a <= x < b,  len(s) <= n
+    doc = fn.__doc__ or ""
+    rng, maxlen = {}, {}
+    for a, nm, strict, b in re.findall(r"(-?\d+) <= (\w+) <(=?) (-?\d+)", doc):
+        rng[nm] = (int(a), int(b) if strict == "=" else int(b) - 1)
+    for nm, b in re.findall(r"len\((\w+)\) <= (\d+)", doc):
+        maxlen[nm] = int(b)
+
+    def value(t, first, nm=None):
+        if first:
+            return rnd.randrange(lo, hi)
+        if t is bool:
+            return rnd.random() < 0.5
+        if t is int:
+            if nm in rng:
+                return rnd.randint(*rng[nm])
+            return rnd.choice([0, 1, 2, 3, 4, 5, 6, 7, -1, -2, -3, 10 ** 12]) if rnd.random() < 0.9 else rnd.randrange(-50, 50)
+        if t is str:
+            ok = [x for x in STRS if len(x) <= maxlen.get(nm, 99)]
+            return rnd.choice(ok)
+        if t is float:
+            return rnd.choice([0.0, 1.5, -2.25, 1e22])
+        if t is bytes:
+            return rnd.choice([b"", b"a", b"\x00\xff"])
+        args = typing.get_args(t)
+        if args:
+            return value(rnd.choice(args), False)
+        return None
+
+    fails, ran = [], 0
+    for i in range(int(n)):
+        args = [value(hints.get(nm, int), k == 0, nm) for k, nm in enumerate(names)]
+        try:
+            r = fn(*args)
+        except AssertionError as e:
+            if "pick:" in str(e):
+                continue
+            r = "native raised %r" % (e,)
+        except Exception as e:  # noqa
+            r = "native raised %r" % (e,)
+        ran += 1
+        if r != "":
+            fails.append({"argstr": ", ".join(repr(a) for a in args), "returned": str(r)[:600]})
+            if len(fails) >= 5:
+                break
+    print("RESULT " + json.dumps({"ran": ran, "fails": fails}))
+
+
 def _reached():
     try:
         from vlib.sh import common
@@ -185,7 +268,9 @@ def replay(module, fn_name, kwfile):
 
 
 if __name__ == "__main__":
-    if sys.argv[1] == "run":
+    if sys.argv[1] == "sample":
+        sample(sys.argv[2], sys.argv[3], int(sys.argv[4]), int(sys.argv[5]), sys.argv[6], int(sys.argv[7]))
+    elif sys.argv[1] == "run":
         run(sys.argv[2], sys.argv[3], int(sys.argv[4]), int(sys.argv[5]), sys.argv[6], sys.argv[7], sys.argv[8])
     else:
         replay(sys.argv[2], sys.argv[3], sys.argv[4])
